@@ -122,14 +122,14 @@ def unit_bounded_equivalence(tier=None, seed=0):
 
 CANARIES = [
     dict(name="contact point multiplied instead of divided after the fit", file="fit.py",
-         old='            fit.params["contact_point"].set(value=cpf / self.fp["gcf_k"])',
-         new='            fit.params["contact_point"].set(value=cpf * self.fp["gcf_k"])', expect="reported_contact_point"),
+         old='                    value=cpf / self.fp["gcf_k"], min=cp_min, max=cp_max)',
+         new='                    value=cpf * self.fp["gcf_k"], min=cp_min, max=cp_max)', expect="reported_contact_point"),
     dict(name="xmin not converted back", file="fit.py", old='                            "xmin": x.min() / self.fp["gcf_k"],',
          new='                            "xmin": x.min(),', expect="xmin"),
     dict(name="fitted points scaled but not the segment", file="fit.py", old='        xseg = self.x_axis[segid] * self.fp["gcf_k"]',
          new='        xseg = self.x_axis[segid]', expect="fit_column_is_model_on_segment_nan_elsewhere"),
-    dict(name="initial contact point not scaled", file="fit.py", old='        params_initial["contact_point"].set(value=cpi * self.fp["gcf_k"])',
-         new='        params_initial["contact_point"].set(value=cpi)', expect="initial_contact_point_scaled_once"),
+    dict(name="initial contact point not scaled", file="fit.py", old='            cp_init.set(value=cp_init.value * self.fp["gcf_k"],',
+         new='            cp_init.set(value=cp_init.value,', expect="initial_contact_point_scaled_once"),
 ]
 
 
